@@ -27,9 +27,16 @@ class OutOfDomain(Exception):
     pass
 
 
+BIG_OK = False        # set by program-level harnesses: wide values travel as opaque tokens
+
+
 def frac_json(q: Fraction, s: int | None = None) -> dict:
     n, d = abs(q.numerator), q.denominator
     if n >= LIMIT or d >= LIMIT:
+        if BIG_OK:
+            if s is None:
+                s = 1 if q < 0 else 0
+            return {'k': 'big', 's': int(s), 'n': str(n), 'd': str(d)}
         raise OutOfDomain(q)
     if s is None:
         s = 1 if q < 0 else 0
